@@ -324,11 +324,26 @@ EventWF(e) ==
   /\ ("res0" \in F => OkMV(e.res0))
   /\ ("evals" \in F => \A i \in DOMAIN e.evals : OkMV(e.evals[i].res))
   /\ ("r" \in F /\ e.kind = "cert" => OkMV(e.r))
-  /\ (e.kind \in {"law", "law3"} => \A f \in F \ {"id", "kind", "op", "raised", "params", "ring", "args"} : OkMV(e[f]))
+  /\ (e.kind \in {"law", "law3", "lawrp"} => \A f \in F \ {"id", "kind", "op", "raised", "params", "ring", "args"} : OkMV(e[f]))
+
+\* C04 on kingdon's own symbol class (RationalPolynomial coefficients): sums, differences, negation and reversal of the
+\* operands as first recorded, the sum computed twice, and the operands read again afterwards
+LawRpVerdict(c, e) ==
+  LET D(mv) == DecodeMV(c, e.ring, mv)
+      x == D(e.x) y == D(e.y) IN
+  IF e.raised # "" THEN "raised_on_total_operator"
+  ELSE IF ~MR!SameElement(D(e.sum), MR!Add(x, y)) THEN "value_differs_from_definition"
+  ELSE IF ~MR!SameElement(D(e.diff), MR!Sub(x, y)) THEN "value_differs_from_definition"
+  ELSE IF ~MR!SameElement(D(e.neg), MR!Neg(x)) \/ ~MR!SameElement(D(e.rev), MR!MVReverse(c, x)) THEN "value_differs_from_definition"
+  ELSE IF ~MR!SameElement(D(e.sum2), D(e.sum)) THEN "same_sum_computed_twice_differs"
+  ELSE IF ~MR!SameElement(D(e.back), y) THEN "sum_minus_first_operand_is_not_the_second"
+  ELSE IF ~MR!SameElement(D(e.x_after), x) \/ ~MR!SameElement(D(e.y_after), y) THEN "operand_or_earlier_result_was_modified"
+  ELSE "ok"
 
 Verdict(e) ==
   IF ~EventWF(e) THEN "result_not_well_formed" ELSE
   CASE e.kind = "op" -> OpEventVerdict(CC, e)
+    [] e.kind = "lawrp" -> LawRpVerdict(CC, e)
     [] e.kind = "law3" -> Law3Verdict(CC, e)
     [] e.kind = "law" -> LawVerdict(CC, e)
     [] e.kind = "cert" -> CertVerdict(CC, e)
